@@ -29,6 +29,48 @@ BWB = DEC + "::build_with_buffer"
 HI = "rg::flags::hiargs::HiArgs"
 
 
+def unbounded_rule(ctx, r):
+    """The multi-line buffer is filled with the whole decoded input: nothing derived from the encoded size cuts it."""
+    facts = ctx.facts
+    h = facts.fn(S + "::fill_multi_line_buffer_from_file")
+    # the buffer lives in the Searcher and is reused for the next input: every fill starts by emptying it
+    for fn_ in (h, facts.fn(S + "::fill_multi_line_buffer_from_reader")):
+        ebc = ExprBuilder(fn_)
+        clears = [c for c in fn_.calls() if c.path.endswith("Vec::clear") and mentions_field(ebc.operand(c.args[0]), S, "multi_line_buffer")]
+        reads_ = [c for c in fn_.calls() if c.path in ("std::io::Read::read", "std::io::Read::read_to_end")]
+        if reads_ and clears and all(any(C.dominates(fn_, cl.bb, rd.bb) for cl in clears) for rd in reads_):
+            r.ok("%s|clear" % fn_.name, "multi_line_buffer.clear() dominates every read into it", fn=fn_)
+        elif reads_:
+            r.bad("%s|clear" % fn_.name, "%s reads into the searcher's multi-line buffer without emptying it first: the previous "
+                  "input's bytes stay in front of this one and are searched again" % fn_.name, fn=fn_, construct="clear")
+    # the decoded stream is read to its end: no byte bound derived from the *encoded* size may cut it
+    for fn_ in (h, facts.fn(S + "::fill_multi_line_buffer_from_reader")):
+        bounded = [c for c in fn_.calls() if c.path in ("std::io::Read::take",) or c.path.endswith("::Take::new")]
+        if bounded:
+            r.bad("%s|unbounded" % fn_.name, "%s bounds the transcoded stream with Read::take at %s: the decoded text is longer or "
+                  "shorter than the encoded file, so a size taken from the file cuts it" % (fn_.name, bounded[0].loc), fn=fn_,
+                  loc=bounded[0].loc, construct="take")
+        else:
+            # the file's size may only be a capacity hint (Vec::reserve): it may neither size/cut the buffer nor end the loop
+            ebf = ExprBuilder(fn_)
+            ML = "std::fs::File::metadata"
+            sized = [c for c in fn_.calls() if c.path.split("::")[-1] in ("resize", "truncate", "set_len", "resize_with", "split_off")
+                     and any(mentions_call(ebf.operand(a), ML) for a in c.args[1:])]
+            reads = [c for c in fn_.calls() if c.path == "std::io::Read::read"]
+            loopsw = []
+            for bb_, te_, fe_, e_ in cond_switches(fn_, lambda e: mentions_call(e, ML), ebf):
+                if any(bb_ in C.reach(fn_, [rd.target]) and rd.bb in C.reach(fn_, [bb_]) for rd in reads if rd.target is not None):
+                    loopsw.append(bb_)
+            if sized or loopsw:
+                r.bad("%s|unbounded" % fn_.name, "%s lets the on-disk size of the file %s: through the transcoder the decoded text can be "
+                      "longer than the file, and its tail is then never searched" % (
+                          fn_.name, "size or cut the buffer" if sized else "end the read loop"), fn=fn_,
+                      loc=(sized[0].loc if sized else None), construct="file-size-bound")
+            else:
+                r.ok("%s|unbounded" % fn_.name, "the decoded stream is read until EOF (no Read::take bound, the file size is only a "
+                     "capacity hint)", fn=fn_)
+
+
 def run(ctx):
     facts = ctx.facts
     with ctx.rule("C17.PATHS", "every strategy is fed decoded bytes or sits behind the needs-no-transcoding guard", floor=8,
@@ -84,15 +126,7 @@ def run(ctx):
         else:
             r.bad("fill_from_file|decoder", "fill_multi_line_buffer_from_file reads the raw file (bypassing the transcoder)", fn=h,
                   construct="decoder")
-        # the decoded stream is read to its end: no byte bound derived from the *encoded* size may cut it
-        for fn_ in (h, facts.fn(S + "::fill_multi_line_buffer_from_reader")):
-            bounded = [c for c in fn_.calls() if c.path in ("std::io::Read::take",) or c.path.endswith("::Take::new")]
-            if bounded:
-                r.bad("%s|unbounded" % fn_.name, "%s bounds the transcoded stream with Read::take at %s: the decoded text is longer or "
-                      "shorter than the encoded file, so a size taken from the file cuts it" % (fn_.name, bounded[0].loc), fn=fn_,
-                      loc=bounded[0].loc, construct="take")
-            else:
-                r.ok("%s|unbounded" % fn_.name, "the decoded stream is read until EOF (no Read::take bound)", fn=fn_)
+        unbounded_rule(ctx, r)
         raw = [c for c in h.calls() if c.path in ("std::io::Read::read_to_end", "std::io::Read::read") and
                not mentions_call(ebh.operand(c.args[0]), BWB)]
         if raw:
